@@ -1,5 +1,5 @@
 # replay of a bounded stand-in violation (C11): re-run native/c11_compilers.py
 import sys
-print("passive n=6 modes=[4, 2, 0, 5] gates=[('Rgate', (4,)), ('Rgate', (2,)), ('MZgate', (2, 5)), ('PassiveChannel', (4, 5, 2)), ('Interferometer', (4, 0)), ('Rgate', (2,)), ('Rgate', (5,)), ('BSgate', (5, 2)), ('MZgate', (4, 0)), ('BSgate', (2, 5)), ('Rgate', (4,)), ('Rgate', (5,)), ('Rgate', (5,)), ('BSgate', (0, 5)), ('BSgate', (2, 4)), ('MZgate', (0, 5))]: compiled program leaves a different Gaussian state (max difference 0.409)")
+print("gaussian_merge n=5 gates=[('Sgate', (3,)), ('S2gate', (0, 1)), ('Dgate', (3,)), ('Vgate', (2,)), ('BSgate', (4, 3)), ('Rgate', (0,)), ('CKgate', (2, 1)), ('MZgate', (2, 3)), ('Rgate', (4,)), ('Dgate', (2,)), ('Kgate', (1,)), ('MZgate', (2, 0)), ('MZgate', (1, 2))]: with the opaque gates interpreted as fixed unitaries the compiled program [('Vgate', [2]), ('GaussianTransform', [0, 1, 3, 4]), ('CKgate', [2, 1]), ('Dgate', [4]), ('Kgate', [1]), ('GaussianTransform', [0, 1, 2, 3]), ('Dgate', [0]), ('Dgate', [1]), ('Dgate', [2]), ('Dgate', [3]), ('MeasureFock', [0, 1, 2, 3, 4])] computes something else (max difference 0.155)")
 print('REPLAY-VIOLATION')
 sys.exit(1)
